@@ -13,7 +13,7 @@
 //!   prog   `s<hex>` handle.send, `S<hex>` send through `with_remote_addr(other)`, `p` poll once;
 //!          afterwards the stream is polled while the task is woken.
 //! Output: every `poll_next` result (`m<hex>` / `P` woken Pending / `I` un-woken Pending / `end` / `err`),
-//!         ` w=<bytes accepted by the socket> f=<successful flushes>`.
+//!         ` w=<bytes accepted by the socket> f=<successful flushes> r=<sends refused by the full queue>`.
 use std::collections::VecDeque;
 use std::io::{self, IoSlice};
 use std::net::SocketAddr;
@@ -511,15 +511,13 @@ pub fn exec(line: &str, rec: &mut Recorder) {
         }
     };
     let out = format!(
-        "{} w={} f={}",
+        "{} w={} f={} r={}",
         o.trace.iter().map(Tok::show).collect::<Vec<_>>().join(","),
         hex(&o.written),
-        o.flushes
+        o.flushes,
+        o.rejected
     );
-    // the capacity of the outbound queue is not modelled: such a line has no model side
-    let out = if o.send_failed { "~".to_string() } else { out };
     if o.send_failed {
-        rec.impl_only += 1;
         rec.stat_n("send.rejected-by-full-queue", o.rejected as u64);
     }
     let idx = rec.case(line.to_string(), out);
@@ -779,7 +777,40 @@ fn gen_write_script(r: &mut Rng, total: usize, nmsgs: usize) -> Vec<WEv> {
     ws
 }
 
+/// many tiny messages against the bounded outbound queue (32 + 1), drained in fits and starts
+fn gen_burst(r: &mut Rng) -> String {
+    let n = r.range(28, 48) as usize;
+    let mut prog = vec![];
+    for i in 0..n {
+        let l = r.range(1, 3) as usize;
+        let mut m = r.bytes(l);
+        m[0] = i as u8;
+        prog.push(Act::Send(m, !r.chance(1, 30)));
+        if r.chance(1, 9) {
+            prog.push(Act::Poll);
+        }
+    }
+    let mut ws = vec![];
+    for _ in 0..r.range(0, 3 * n as u64) {
+        match r.below(6) {
+            0 => ws.push(WEv::Pending),
+            1 => ws.push(WEv::Accept(1)),
+            _ => ws.push(WEv::Accept(*r.pick(&[2usize, 3, 4, 5, 65535]))),
+        }
+    }
+    if r.chance(3, 4) {
+        for _ in 0..(3 * n) {
+            ws.push(WEv::Accept(65535));
+        }
+    }
+    let rs = if r.chance(1, 2) { vec![REv::Eof] } else { vec![REv::Pending, REv::Data(vec![0, 1, 0x61]), REv::Pending, REv::Eof] };
+    case_line('t', r.chance(1, 2), &rs, &ws, &prog)
+}
+
 fn gen_case(r: &mut Rng) -> String {
+    if r.chance(1, 40) {
+        return gen_burst(r);
+    }
     // ---- receive direction
     let k = r.range(1, 3) as usize;
     let mut msgs: Vec<Vec<u8>> = (0..k).map(|_| { let n = gen_len(r); r.bytes(n) }).collect();
